@@ -83,7 +83,7 @@ def run(res, replay=None):
     else:
         n = (40, 45) if res.tier == 'quick' else (400, 60)
         w = sc.weights(in_seq=22, too_high=8, too_low=6, poss_dup=9, poss_dup_in_seq=2, bad_compid=5, corrupt=9, embedded34=10,
-                       resend_request=3, app=5, batch=2, adm=1, app_flags=0, adm_flags=0, restart=3)
+                       resend_request=3, app=5, batch=2, adm=1, app_flags=0, adm_flags=0, restart=3, _big=0.08)
         lines, _ = sc.generate('C19', res.seed, n[0], n[1], w)
         lines = vlib.corpus_lines('C19') + lines
     res.assumptions += ['initiator role; the application is the pattern of every sample application: `enforce(seqnum, msg) || deliver`',
